@@ -239,6 +239,12 @@ class Rewriter(ast.NodeTransformer):
                 return ast.copy_location(self.vc("not_", self.vc("is_", l, r)), node)
         return node
 
+    def visit_Set(self, node):
+        self.generic_visit(node)
+        if any(isinstance(e, ast.Starred) for e in node.elts):
+            return node
+        return ast.copy_location(self.vc("mkset", *node.elts), node)
+
     def visit_UnaryOp(self, node):
         self.generic_visit(node)
         if isinstance(node.op, ast.Not):
@@ -335,9 +341,14 @@ class Rewriter(ast.NodeTransformer):
         if not self.loop_stack:
             return node
         k = self.loop_stack[-1]
-        return ast.copy_location(
-            ast.Expr(value=self.vc("loop_continue", ast.Constant(value=k), self.locals_call())), node
-        )
+        # cut mode: loop_continue checks the invariant and ends the path; unrolled mode: it returns and the
+        # native `continue` takes effect
+        return [
+            ast.copy_location(
+                ast.Expr(value=self.vc("loop_continue", ast.Constant(value=k), self.locals_call())), node
+            ),
+            ast.copy_location(ast.Continue(), node),
+        ]
 
     def generic_visit(self, node):
         # statements lists may receive lists from _loop
